@@ -114,6 +114,7 @@ PROPS = {
                       "getCachedClient/generateClient breaker wiring.",
     },
     "C03": {
+        "onep": True,
         "rule": "exhaustive response permutations for k<=4 (thorough k<=5) calls mixing Go/Call/SendRaw, with pushes carrying a pending "
                 "call's seq, unknown seqs and duplicates inserted, plus 350 (thorough 8000) random schedules over registration / encode / "
                 "write / cancel / frames / reader termination / Close, each forced step by step on the real client; distinct = distinct "
@@ -135,6 +136,7 @@ PROPS = {
                       "(send, call, SendRaw, input, Close). Weak-memory behaviour is outside the model.",
     },
     "C05": {
+        "onep": True,
         "rule": "350 (thorough 8000) random schedules: 1-5 calls (Go, blocking Call, SendRaw, one-way), each stepping through "
                 "registration / encode ok or failure / write ok or failure, interleaved with response frames (ok, service error, wrong "
                 "type, unknown codec, pushes, strays), context cancellation, Close, reader termination (clean EOF, or cut inside header / "
@@ -157,6 +159,7 @@ PROPS = {
         "level_note": "Trusted: Coq kernel, extraction, rig and hooks. Modelled, not verified: client/client.go.",
     },
     "C06": {
+        "onep": True,
         "rule": "(the scripted transport honours write deadlines; Go calls with an already expired context deadline and cancellation before registration are among the aggressors) exhaustive victim/aggressor enumeration (victim first or later x aggressor in {cancelled before registration, after "
                 "registration, after write, unencodable argument, mistyped reply, one-way, service error, unknown codec, write failure} x 3 "
                 "relative orders) plus 350 (thorough 8000) random schedules with 2-3 calls; distinct = distinct model-input line; "
@@ -177,6 +180,7 @@ PROPS = {
         "level_note": "Trusted: Coq kernel, extraction, rig and hooks. Modelled, not verified: client/client.go.",
     },
     "C10": {
+        "onep": True,
         "kcheck": True,
         "rule": "exhaustive per-attempt outcome sequences {ok, service error, connection lost, context cancelled, deadline exceeded} up to "
                 "the retry bound for modes {fail-fast, fail-try, fail-over} x retries 0..2 x 1..3 servers (quick: every third), plus "
@@ -204,6 +208,7 @@ PROPS = {
                       "modes), xClient.SendRaw, xClient.Go, selectClient/getCachedClient/removeClient.",
     },
     "C17": {
+        "onep": True,
         "rule": "exhaustive outcome vectors over {ok, service error, connection lost, slow} for 1..3 (thorough 1..4) scripted servers x "
                 "every completion order (slow servers last; quick: a third of the n=3 space), each run through Broadcast, Fork and Inform "
                 "with completion order forced by per-server answer delays; distinct = distinct model-input line; non-trivial = at least "
@@ -246,6 +251,7 @@ PROPS = {
                       "MultipleServersDiscovery.Update / notifyWatcher, xClient.watch, filterByStateAndGroup.",
     },
     "C04": {
+        "onep": True,
         "rule": "260 (thorough 6000) random request sequences: 1-6 requests on 1-3 connections, arbitrary and repeated seqs, one-way / "
                 "two-way / heartbeat, the three dispatch styles (reflected method, registered function, router handler) plus pooled "
                 "(Reset-able) argument types, unknown service / method / codec, undecodable and partially filled arguments, handler "
@@ -270,6 +276,7 @@ PROPS = {
                       "Context.Write/WriteError, sendResponse.",
     },
     "C07": {
+        "onep": True,
         "rule": "260 (thorough 6000) random request sequences biased to failures (60%): handler error texts {empty, short, multi-line, "
                 "non-ASCII, 64 KiB}, panics, unknown service / method / codec, undecodable arguments, at every position of sequences "
                 "of 1-6 requests incl. one-way, on 1-3 connections; a third of the cases repeat the failing requests through a real "
@@ -288,6 +295,7 @@ PROPS = {
                       "client.input's error branch.",
     },
     "C20": {
+        "onep": True,
         "rule": "size classes: findPool / findPutPool compared with the exact-arithmetic model for EVERY size 0..max+2 of 40 "
                 "configurations (incl. non-power-of-two min/max; one model line per configuration, ~114k sizes); 300 (thorough 8000) "
                 "Get/Put histories with content fingerprints and pointer-distinctness of held buffers; 16 concurrent workers holding "
@@ -313,6 +321,7 @@ PROPS = {
                       "protocol.EncodeSlicePointer/PutData, server typePools and handleRequest's Get/Put calls.",
     },
     "C15": {
+        "onep": True,
         "generated": ["goplugins2v"],
         "rule": "exhaustive matrix: 6 stage configurations (authentication alone, + accept veto, + post-read reject, + pre-call "
                 "reject, none, post-read + pre-call) x ingress {native, gateway, JSON-RPC} x token {missing, wrong, right} x "
@@ -335,6 +344,7 @@ PROPS = {
                       "handleGatewayRequest, handleJSONRPCRequest, the accept filter of the HTTP sub-listeners.",
     },
     "C19": {
+        "onep": True,
         "kcheck": True,
         "rule": "120 (thorough 3000) random requests (existing / unknown / dotted service names, unknown methods, handler errors with "
                 "header-safe texts, arguments of the wrong type, 0-3 metadata entries with URL-unsafe characters, arbitrary message ids, "
@@ -371,6 +381,7 @@ PROPS = {
                       "jsonrpc2.go, and the strconv / net/url functions they call.",
     },
     "C16": {
+        "onep": True,
         "kcheck": True,
         "rule": "forced schedules on the in-memory server rig: systematic part = one request of every kind (normal, one-way, "
                 "heartbeat, rate-limited, failing authentication, rejected by a plugin) with Shutdown begun at every point of "
@@ -406,6 +417,7 @@ PROPS = {
                       "un-counting. Partial where named under assumptions (the decode-to-increment window).",
     },
     "C08": {
+        "onep": True,
         "generated": ["gowrites2v"],
         "rule": "forced write schedules: every transport Write of the connection under test is held before it touches its bytes; "
                 "writers (server side: responses, heartbeat echoes, server pushes, sync / async write mode, with / without worker "
@@ -437,6 +449,7 @@ PROPS = {
                       "free buffers).",
     },
     "C09": {
+        "onep": True,
         "generated": ["gowrites2v"],
         "rule": "real client -> real server over 5 transports {in-memory, tcp, unix, http-connect, websocket} x 5 codecs {raw bytes, JSON, "
                 "protobuf, MessagePack, Thrift} x compression {none, gzip}: sequential calls with argument sizes {0, 1, 700..1030 "
